@@ -4,11 +4,11 @@
 # demonstration) is evaluated on a scratch worktree of /repo (see eval_patch.sh): its target property must FIRE.
 J=4; if [ "$1" = "-j" ]; then J=$2; shift 2; fi
 S=/var/tmp/verif-snap-seed-$$
-mkdir -p $S/p && cp -rp /verif/check /verif/hdlint /verif/known_findings.txt /verif/mutants /verif/properties.jsonl $S/ 2>/dev/null
+mkdir -p $S/p && cp -rp /verif/check /verif/hdlint /verif/known_findings.txt /verif/mutants /verif/properties.jsonl /verif/tools $S/ 2>/dev/null
 trap 'rm -rf $S' EXIT
 export VERIF_ROOT=$S
 for d in /verif/seeded/*/; do id=$(basename $d); cp $d/patch.diff $S/p/seed-$id.diff; done
-ls $S/p/*.diff | xargs -P $J -n 1 /verif/tools/eval_patch.sh | grep -E "^seed-" | sort | while read line; do
+ls $S/p/*.diff | xargs -P $J -n 1 $S/tools/eval_patch.sh | grep -E "^seed-" | sort | while read line; do
   id=$(echo "$line" | sed 's/^seed-\([^:]*\):.*/\1/'); prop=${id%%-*}
   if echo "$line" | grep -q "FIRED.* $prop\b\|FIRED $prop\b"; then echo "$line  [target $prop: detected]"; else echo "$line  [target $prop: MISSED]"; fi
 done
